@@ -325,8 +325,17 @@ def run_check(pid, tier, replay=None):
         sanitize = bool(getattr(P, "SANITIZE", False))
         asan_dir = build_impl(scratch, sanitize=True) if sanitize else None
         # ---- translator part
+        gen_err = None
         if hasattr(P, "gen_tables"):
-            P.gen_tables(impl_dir, os.path.join(COQ, "Gen"))
+            try:
+                P.gen_tables(impl_dir, os.path.join(COQ, "Gen"))
+            except Exception as e:
+                # a translator that no longer understands the source fails closed: the tie is broken,
+                # which is handled like a broken proof obligation (search, then no-failing-input-found)
+                if type(e).__name__ != "TranslateError":
+                    raise
+                gen_err = "translator %s.gen_tables cannot translate the current source: %s" % (pid, e)
+                notes.append(gen_err)
         # ---- proofs
         hy = hygiene(["Base", "Gen", "Properties/%s.v" % pid, pid] + list(getattr(P, "COQ_DIRS", [])))
         targets = ["Properties/%s.vo" % pid, P.COQ_REQUIRE.replace(".", "/") + ".vo"]
@@ -334,7 +343,9 @@ def run_check(pid, tier, replay=None):
         pinfo = coq_property_file(pid) if ok_make else {"ok": False, "theorems": re.findall(
             r"^\s*Theorem\s+(\w+)", open(os.path.join(COQ, "Properties", pid + ".v")).read(), flags=re.M),
             "closed": 0, "axioms": [], "log": make_log[-4000:]}
-        proofs_ok = ok_make and pinfo["ok"] and not hy
+        proofs_ok = ok_make and pinfo["ok"] and not hy and not gen_err
+        if gen_err:
+            pinfo["log"] = gen_err
         nthm = len(pinfo["theorems"])
         cov.update(obligations=nthm, discharged=nthm if proofs_ok else 0,
                    checker_cmd="make -C coq Properties/%s.vo && coqc -Q coq PV coq/Properties/%s.v (Coq 8.16.1, full .vo build)" % (pid, pid),
